@@ -97,10 +97,10 @@ def run(ck):
         return _enum(exe, args, tag, **kw)
     ck.enum = enum
     if ck.tier == "quick":
-        ck.enum(ex["h_c07_small"], ["--len=1", "--salts=1"], "small-l1-asan", batch=1, deadline_s=50, timeout_ms=T)
         ck.enum(ex["h_c07_small_plain"], ["--len=2", "--prune-depth=8", "--salts=1", "--no-compress=1"], "small-l2", batch=1, deadline_s=70, timeout_ms=T)
-        ck.enum(ex["h_c07_full_plain"], ["--len=2", "--salts=1", "--no-compress=1"], "full-l2", batch=1, deadline_s=50, timeout_ms=T)
-        ck.enum(ex["h_c07_small"], ["--len=1", "--salts=1", "--bin=1"], "bin-l1", batch=1, deadline_s=60, timeout_ms=T)
+        ck.enum(ex["h_c07_small"], ["--len=1", "--salts=1", "--deep=0"], "small-l1-asan", batch=1, deadline_s=60, timeout_ms=T)
+        ck.enum(ex["h_c07_full_plain"], ["--len=2", "--salts=1", "--no-compress=1"], "full-l2", batch=1, deadline_s=45, timeout_ms=T)
+        ck.enum(ex["h_c07_small"], ["--len=1", "--salts=1", "--bin=1", "--deep=0"], "bin-l1", batch=1, deadline_s=55, timeout_ms=T)
     else:
         ck.enum(ex["h_c07_small"], ["--len=2", "--prune-depth=8", "--salts=4"], "small-l2-s4", batch=1, deadline_s=500, timeout_ms=T)
         ck.enum(ex["h_c07_small_plain"], ["--len=3", "--salts=1", "--no-compress=1"], "small-l3", batch=1, deadline_s=800, timeout_ms=T)
